@@ -42,6 +42,7 @@ class InterpCore:
         self._scan_cache: dict = {}
         self.entity_classes: dict = {}
         self.enter_hook = None
+        self.stream_fault_hook = None
         self.call_hook = None  # set by analyses: (fn, args, kwargs, run, node, higher_order) -> NotImplemented | value
         self.trace_calls = None
         self.init_lib()
